@@ -407,6 +407,18 @@ func genPost(s *sink, tlcCases string) {
 		}
 		s.add(Case{Kind: "post", Names: names, XI: true}, "")
 	}
+	// 255-byte names, more than 64 KiB of Pascal strings in total (no 16-bit offset in this format)
+	{
+		var names [][]int
+		for j := 0; j < 300; j++ {
+			nm := append(ints([]byte("~"+strconv.Itoa(j)+".")), customName(rng, 255)...)[:255]
+			names = append(names, nm)
+			if j%3 == 0 {
+				names = append(names, st[j%258])
+			}
+		}
+		s.add(Case{Kind: "post", Names: names, XI: true}, "")
+	}
 	// large counts.  At most 65278 strings can be addressed by a format-2 table (indices 258..65535);
 	// golang.org/x/image reads indices up to 32767 only and is asked up to 6000 glyphs (linear scan per name).
 	type big struct{ n, custom int; xi bool }
